@@ -277,6 +277,24 @@ func (c *c08) hashFunctions(kp *world.KeyPool, dids []*world.DID, tier string) {
 			contents = append(contents, content{"jwk", k.JWK})
 		}
 	}
+	// keys that carry the optional nonce member (it is part of the key: commitment and reveal value must both cover it)
+	for i, k := range kp.Keys {
+		if i < 5 || tier == "thorough" {
+			kn := *k.JWK
+			kn.Nonce = []string{"bm9uY2U", "AAAAAAAAAAAAAAAAAAAAAA", "n"}[i%3]
+			contents = append(contents, content{"jwk-with-nonce", &kn})
+		}
+	}
+	// member names of which one is a prefix of another (the canonical order puts the shorter first; only a text that
+	// lists them in another order exercises that rule)
+	for _, names := range [][]string{{"a", "ab", "abc"}, {"origin", "originHint"}, {"uri", "uris", "ur"}, {"", "x", "xx"}, {"k1", "k", "k10", "k11"},
+		{"é", "éé", "e"}, {"id", "ids", "i", "idx"}} {
+		m := map[string]interface{}{}
+		for j, n := range names {
+			m[n] = float64(j)
+		}
+		contents = append(contents, content{"prefix-names", m}, content{"prefix-names", map[string]interface{}{"outer": m, "out": []interface{}{m}}})
+	}
 	for _, d := range dids {
 		var req model.CreateRequest
 		world.Must(json.Unmarshal(d.Create.Request, &req))
